@@ -1,3 +1,51 @@
-From Coq Require Import List. Require Import M_Parse.
-Theorem placeholder_C03 : True. Proof. exact I. Qed.
-Print Assumptions placeholder_C03.
+(* C03 - all identifiers are expressed in one global namespace table *)
+From Coq Require Import String Ascii List Bool Arith NArith ZArith.
+Require Import PyStr PyInt Sexp Xml M_C09 M_C08 Ns Table M_Parse T_Parse.
+Import ListNotations.
+Open Scope char_scope.
+
+(* the caller's list is kept, in order, as a prefix *)
+Theorem C03_caller_prefix : forall E caller docs p,
+  parse_files E caller docs = Ok p -> exists s, p_namespaces p = caller ++ s.
+Proof. exact C03_caller_prefix. Qed.
+
+(* no URI is ever entered twice *)
+Theorem C03_no_duplicates : forall E caller docs p,
+  NoDup caller -> parse_files E caller docs = Ok p -> NoDup (p_namespaces p).
+Proof. exact C03_no_duplicates. Qed.
+
+(* without a caller list index 0 is the OPC UA namespace *)
+Theorem C03_index_zero : forall E docs p,
+  parse_files E [] docs = Ok p -> exists s, p_namespaces p = UA_URI :: s.
+Proof. exact C03_index_zero. Qed.
+
+(* with a caller list that starts with the OPC UA namespace, index 0 is the OPC UA namespace *)
+Theorem C03_index_zero_caller : forall E caller0 docs p,
+  parse_files E (UA_URI :: caller0) docs = Ok p -> exists s, p_namespaces p = UA_URI :: s.
+Proof. exact C03_index_zero_caller. Qed.
+
+(* an identifier written with local index k+1 in a file whose k-th URI is uri is mapped to the index of uri in the table, and later files never move it *)
+Theorem C03_identifier_index : forall ns d u k uri later,
+  d_uris d = Some u -> nth_error u k = Some uri ->
+  exists j, zlookup (Z.of_nat (S k)) (zmap_of (snd (file_ns ns d))) = Some (Z.of_nat j) /\
+            nth_error (fst (file_ns ns d) ++ later) j = Some uri.
+Proof. exact C03_identifier_index. Qed.
+
+(* the map only has entries for the local indices the file declares *)
+Theorem C03_map_keys : forall ns d k j,
+  In (k, j) (snd (file_ns ns d)) -> exists u, d_uris d = Some u /\ 0 < k <= length u.
+Proof. exact file_ns_keys. Qed.
+
+(* over a sequence of files the table only grows, stays duplicate free and contains the OPC UA namespace *)
+Theorem C03_grows : forall E,
+  forall docs ns ns' fos, parse_seq E ns docs = Ok (ns', fos) ->
+  (exists s, ns' = ns ++ s) /\ (NoDup ns -> NoDup ns') /\ (docs <> [] -> In UA_URI ns') /\ length fos = length docs.
+Proof. exact parse_seq_ns. Qed.
+
+Print Assumptions C03_caller_prefix.
+Print Assumptions C03_no_duplicates.
+Print Assumptions C03_index_zero.
+Print Assumptions C03_index_zero_caller.
+Print Assumptions C03_identifier_index.
+Print Assumptions C03_map_keys.
+Print Assumptions C03_grows.
